@@ -1,7 +1,7 @@
 (** C12 — Compiling a program is independent of what was compiled before.
     Property theorems only; every proof is [exact lemma]. *)
 From Coq Require Import List NArith Bool.
-From UV Require Import Model.Memo Proofs.Memo.
+From UV Require Import Model.Memo Proofs.Memo Proofs.MemoPre.
 Import ListNotations.
 Open Scope N_scope.
 
@@ -43,29 +43,35 @@ Theorem C12_pre_eval_cache_sufficient : forall B (x y : pre_input),
   pre_key x = pre_key y -> pre_deps x = pre_deps y.
 Proof. exact pre_cache_sufficient'. Qed.
 
-(** caches of the current code whose key does NOT determine what the cached value depends on *)
-Theorem C12_inverse_cache_refuted : exists x y, inv_key x = inv_key y /\ inv_deps x <> inv_deps y.
+(** the inverse caches (un / anti / under) and the fast-function cache, keyed by [hash_deep]
+    since 25aa9f6: the key determines everything the cached value is made of except the
+    NAMES of the function handles ... *)
+Theorem C12_inverse_cache_sufficient : forall T (x y : inv_input),
+  forallb (wf_sigd T) (fst x) = true -> forallb (wf_sigd T) (fst y) = true ->
+  inv_key x = inv_key y -> inv_deps_no_names x = inv_deps_no_names y.
+Proof. exact inv_cache_sufficient_modulo_names. Qed.
+
+Theorem C12_zip_cache_sufficient : forall T (x y : node),
+  wf_sig T x = true -> wf_sig T y = true ->
+  zip_key x = zip_key y -> zip_deps_no_names x = zip_deps_no_names y.
+Proof. exact zip_cache_sufficient_modulo_names. Qed.
+
+(** ... which they do not determine (real pairs: an inversion error / a trace frame naming the
+    function of the earlier program), nor does the purity key determine what is read of the
+    bindings table *)
+Theorem C12_inverse_cache_names_refuted : exists x y, inv_key x = inv_key y /\ inv_deps x <> inv_deps y.
 Proof. exact inv_cache_refuted. Qed.
 
-Theorem C12_zip_cache_refuted_span : exists x y, zip_key x = zip_key y /\ zip_deps x <> zip_deps y.
-Proof. exact zip_cache_refuted_span. Qed.
-
-Theorem C12_zip_cache_refuted_index : exists x y, zip_key x = zip_key y /\ zip_deps x <> zip_deps y.
-Proof. exact zip_cache_refuted_index. Qed.
+Theorem C12_zip_cache_names_refuted : exists x y, zip_key x = zip_key y /\ zip_deps x <> zip_deps y.
+Proof. exact zip_cache_refuted. Qed.
 
 Theorem C12_purity_cache_refuted : exists x y, pur_key x = pur_key y /\ pur_deps x <> pur_deps y.
 Proof. exact pur_cache_refuted. Qed.
 
-(** repairs: hashing every span of the input is not enough (the spans of inlined bodies
-    differ); hashing the spans of the input and of the bodies it reaches is; likewise the
-    whole node (spans and function indices) for the fast row functions *)
-Theorem C12_inverse_fix_input_spans_refuted :
-  exists x y, inv_key_fix1 x = inv_key_fix1 y /\ inv_deps x <> inv_deps y.
-Proof. exact inv_fix1_refuted. Qed.
-
+(** repairs of those *)
 Theorem C12_inverse_sufficient_after_fix : forall (V : Type) (g : list node * (N * bool) -> V),
-  sufficient inv_key_fix2 (fun x => g (inv_deps x)).
-Proof. exact inv_fix2_sufficient. Qed.
+  sufficient inv_key_fix (fun x => g (inv_deps x)).
+Proof. exact inv_fix_sufficient. Qed.
 
 Theorem C12_zip_sufficient_after_fix : forall (V : Type) (g : node -> V),
   sufficient zip_key_fix (fun x => g (zip_deps x)).
@@ -75,6 +81,21 @@ Theorem C12_purity_sufficient_after_fix : forall (V : Type) (g : _ -> V),
   sufficient pur_key_fix (fun x => g (pur_deps x)).
 Proof. exact pur_fix_sufficient. Qed.
 
+(** records of the keys before 25aa9f6 (models of the code before the repair) *)
+Theorem C12_inverse_cache_refuted_pre : exists x y, inv_key_pre x = inv_key_pre y /\ inv_deps_pre x <> inv_deps_pre y.
+Proof. exact inv_cache_refuted_pre. Qed.
+Theorem C12_inverse_fix_input_spans_refuted_pre :
+  exists x y, inv_key_fix1 x = inv_key_fix1 y /\ inv_deps_pre x <> inv_deps_pre y.
+Proof. exact inv_fix1_refuted_pre. Qed.
+Theorem C12_zip_cache_refuted_span_pre : exists x y, zip_key_pre x = zip_key_pre y /\ zip_deps x <> zip_deps y.
+Proof. exact zip_cache_refuted_span_pre. Qed.
+Theorem C12_zip_cache_refuted_index_pre : exists x y, zip_key_pre x = zip_key_pre y /\ zip_deps x <> zip_deps y.
+Proof. exact zip_cache_refuted_index_pre. Qed.
+Theorem C12_repaired_keys_separate_pre :
+  inv_key un_w1 <> inv_key un_w2 /\ inv_key un_w3 <> inv_key un_w4 /\
+  zip_key zip_w1 <> zip_key zip_w2 /\ zip_key zip_w3 <> zip_key zip_w4.
+Proof. exact repaired_keys_separate. Qed.
+
 (** non-vacuity: a history with a repeated key and a non-trivial cached function on which
     the premises of C12_memo_transparent hold and the table is really consulted; and the
     refuted inverse key on the model of the real failing pair gives a visible history *)
@@ -83,7 +104,7 @@ Example C12_nonvacuous :
   let f := fun x : N => (x mod 3) * 10 in
   sufficient key f /\
   run_memo N.eqb always key f [4; 7; 5; 1] = [10; 10; 20; 10] /\
-  inv_key un_w1 = inv_key un_w2 /\
+  inv_key un_n1 = inv_key un_n2 /\ forallb (wf_sigd (fun _ => S11)) (fst un_n1) = true /\
   sig_key [NMod DIP [(NCall 1 S11 0 99 0 (body_at 2) 5, S11)] 6] =
   sig_key [NMod DIP [(NCall 2 S11 1 99 1 (body_at 3) 9, S11)] 4].
 Proof.
@@ -96,11 +117,16 @@ Print Assumptions C12_memo_transparent_hashed.
 Print Assumptions C12_memo_not_transparent.
 Print Assumptions C12_sig_cache_sufficient.
 Print Assumptions C12_pre_eval_cache_sufficient.
-Print Assumptions C12_inverse_cache_refuted.
-Print Assumptions C12_zip_cache_refuted_span.
-Print Assumptions C12_zip_cache_refuted_index.
+Print Assumptions C12_inverse_cache_sufficient.
+Print Assumptions C12_zip_cache_sufficient.
+Print Assumptions C12_inverse_cache_names_refuted.
+Print Assumptions C12_zip_cache_names_refuted.
 Print Assumptions C12_purity_cache_refuted.
-Print Assumptions C12_inverse_fix_input_spans_refuted.
 Print Assumptions C12_inverse_sufficient_after_fix.
 Print Assumptions C12_zip_sufficient_after_fix.
 Print Assumptions C12_purity_sufficient_after_fix.
+Print Assumptions C12_inverse_cache_refuted_pre.
+Print Assumptions C12_inverse_fix_input_spans_refuted_pre.
+Print Assumptions C12_zip_cache_refuted_span_pre.
+Print Assumptions C12_zip_cache_refuted_index_pre.
+Print Assumptions C12_repaired_keys_separate_pre.
